@@ -1,0 +1,15 @@
+//go:build verif
+
+package vm
+
+// VerifPoint, when non-nil, is called by Vm.Run immediately before each
+// instruction is decoded. It exists only in builds with the "verif" tag and is
+// used by external verification harnesses as a scheduling point, an
+// instruction counter and an execution budget.
+var VerifPoint func()
+
+func verifPoint() {
+	if VerifPoint != nil {
+		VerifPoint()
+	}
+}
